@@ -2,16 +2,21 @@
    the outcome check against the model (mismatches) and the property on the implementation's observations (failing). *)
 From Coq Require Import List Arith Bool.
 Import ListNotations.
-From GB Require Export Conc CacheConc CachePersist.
+From GB Require Export Conc CacheConc CachePersist CacheClock.
 
 (* one call of one goroutine: error classes as in CacheConc (0 ok, 1 nothing to commit, 2 entity missing from
    cache, 3 not found, 4 other, 7 no commit attempted) plus 5 = the call panicked, 6 = it never returned *)
 Record callobs := mkcall { co_thread : nat; co_kind : ckind; co_bug : nat; co_op : nat; co_e1 : nat; co_e2 : nat }.
 (* one bug as stored in git after the run, read on a fresh handle: packs root first; bo_chain: one root and every
-   other commit exactly one parent; bo_read: the operations bug.Read returns (None: unreadable) *)
-Record bugobs := mkbug { bo_id : nat; bo_packs : list (list nat); bo_chain : bool; bo_read : option (list nat) }.
+   other commit exactly one parent; bo_read: the operations bug.Read returns (None: unreadable); bo_times: the lamport
+   edit time stored with each commit, root first *)
+Record bugobs := mkbug { bo_id : nat; bo_packs : list (list nat); bo_chain : bool; bo_read : option (list nat); bo_times : list nat }.
 Record case := mkcase {
-  c_evict : nat;               (* 0: default cache size, nothing can be evicted; 1: at least one loaded entity per goroutine; 2: fewer *)
+  c_evict : nat;               (* 0: default cache size, nothing can be evicted; 1: at least one loaded entity per goroutine; 2: fewer;
+                                  3: bugs are evicted, but by the construction of the run (harness c18Bounded: steps separated by
+                                  barriers, one goroutine at a time resolves / edits, at most capacity goroutines with one handle
+                                  each, fewer than capacity distinct other bugs resolved between the Resolve and the use of a
+                                  handle) never the bug of a handle in use: CacheLru.recent_handle_survives *)
   c_shared : nat;              (* bugs 1..c_shared existed before the goroutines started, create operation 1000+b *)
   c_calls : list callobs;      (* thread-major; operation numbers are 1 + position of the issuing call *)
   c_flush : list (nat * nat);  (* the final CommitAsNeeded per bug: error class *)
@@ -43,6 +48,10 @@ Fixpoint prefixb (a b : list (list nat)) : bool :=
   | _, [] => false
   end.
 Definition list_eqb (a b : list nat) : bool := if list_eq_dec Nat.eq_dec a b then true else false.
+(* (CacheClock.increasingb: the edit times along a chain, each commit later than its parent: what bug.Read demands of a
+   valid history) *)
+(* may a handle in use be evicted in this run? (c_evict 1 or 2) *)
+Definition may_evict_in_use (c : case) : bool := Nat.eqb (c_evict c) 1 || Nat.eqb (c_evict c) 2.
 
 (* --- the outcome against the model: the conclusions of the theorems of P_C18 ---
    C18_no_lost_ack (acks_stored_once), C18_stored_once_issued, C18_history_append_only (a bug that existed keeps
@@ -54,7 +63,10 @@ Definition C18_allowed (c : case) : bool :=
                     forallb (fun o => memn o (issued c (bo_id x)) || (c_stuck c && Nat.eqb o 0)) (concat (bo_packs x))) (c_bugs c) &&
   forallb (fun x => negb (Nat.leb (bo_id x) (c_shared c)) || prefixb [[1000 + bo_id x]] (bo_packs x)) (c_bugs c) &&
   (c_stuck c || classes_ok (results_of c)) &&
-  (negb (c_stuck c) || negb (Nat.eqb (c_evict c) 0)) &&
+  (* C18_deadlock_free + CacheLru.recent_handle_survives: stuck only if the bug of a handle in use can be evicted *)
+  (negb (c_stuck c) || may_evict_in_use c) &&
+  (* CacheClock.times_increasing: the commits of a bug carry increasing edit times (one clock instance per name) *)
+  forallb (fun x => increasingb (bo_times x)) (c_bugs c) &&
   (* C18_excerpts_fresh: an excerpt is stale only for a bug about which a call failed in entityUpdated / add *)
   forallb (fun b => existsb (fun x => Nat.eqb (co_bug x) b && missedb (res_of x)) (c_calls c)) (c_stale c) &&
   (* CachePersist.saved_fresh_when_done: the saved excerpts are the excerpts of the cache; stale only where those are *)
@@ -72,6 +84,7 @@ Definition C18_ok (c : case) : bool :=
   acks_stored_once (results_of c) (stored_of c) &&                                (* every acknowledged operation stored exactly once *)
   forallb (fun x => bo_chain x &&                                                 (* each history a chain ... *)
                     match bo_read x with Some ops => list_eqb ops (concat (bo_packs x)) | None => false end &&   (* ... that reads back *)
+                    increasingb (bo_times x) &&                                   (* ... valid: every commit later (lamport edit time) than its parent *)
                     nodupb (concat (bo_packs x)) &&
                     forallb (fun o => memn o (issued c (bo_id x))) (concat (bo_packs x)))   (* containing only what was issued *)
           (c_bugs c) &&
@@ -82,8 +95,10 @@ Definition C18_ok (c : case) : bool :=
 
 Definition failing (cs : list case) : list nat := index_filter C18_ok 0 cs.
 
-(* --replay: the acknowledged operations that are not stored exactly once, per (bug, operation), the bugs whose
-   excerpt was stale in the cache / in the saved cache loaded again, and the verdicts *)
+(* --replay: did the run hang; the bugs whose commits do not carry increasing edit times, with the times; the
+   acknowledged operations that are not stored exactly once, per (bug, operation); the bugs whose excerpt was stale
+   in the cache / in the saved cache loaded again; and the verdicts *)
 Definition explain (c : case) :=
-  (flat_map (fun r => if ackedb r && negb (Nat.eqb (count_occ Nat.eq_dec (stored_of c (r_bug r)) (r_op r)) 1) then [(r_bug r, r_op r)] else []) (results_of c),
+  (c_stuck c, flat_map (fun x => if increasingb (bo_times x) then [] else [(bo_id x, bo_times x)]) (c_bugs c),
+   flat_map (fun r => if ackedb r && negb (Nat.eqb (count_occ Nat.eq_dec (stored_of c (r_bug r)) (r_op r)) 1) then [(r_bug r, r_op r)] else []) (results_of c),
    c_stale c, c_saved c, C18_allowed c, C18_ok c).
